@@ -16,7 +16,8 @@ ANCHORS = ['pycaption.scc:SCCReader._flush_implicit_buffers',
 THOROUGH_SCALE = 3        # random budgets of the thorough tier are multiplied by this
 REQUIRE = {'streams_roll': 50, 'streams_paint': 50, 'mode_switches': 20, 'rows_checked': 500,
            'streams_starting_at_zero': 20, 'depth_2': 5, 'depth_3': 5, 'depth_4': 5, 'chars_conserved': 5000,
-           'rows_with_special_or_extended': 20, 'abandoned_pop_on_loads': 10, 'streams_returning_to_an_earlier_mode': 50, 'end_equals_next_start_checked': 500}
+           'rows_with_special_or_extended': 20, 'abandoned_pop_on_loads': 10, 'streams_returning_to_an_earlier_mode': 50, 'end_equals_next_start_checked': 500,
+           'reads_by_a_reader_object_used_before': 100}
 
 
 def cases(ctx):
@@ -27,7 +28,10 @@ def cases(ctx):
                             ['pop', 'paint', 'pop'], ['roll', 'pop', 'paint'], ['paint', 'roll', 'paint'],
                             ['paint', 'pop', 'paint'], ['roll', 'paint', 'roll'], ['roll', 'pop', 'roll'],
                             ['paint', 'roll', 'paint', 'roll'], ['paint', 'paint']])
-        yield {'stream': G.gen_stream(rng, modes=modes, rich=rng.random() < 0.4)}
+        case = {'stream': G.gen_stream(rng, modes=modes, rich=rng.random() < 0.4)}
+        if rng.random() < 0.2:
+            case['prior_doc'] = G.prior_doc(rng)      # the reader object has read another document before
+        yield case
 
 
 def nontrivial(case):
@@ -63,7 +67,7 @@ def check(case, ctx):
         if s['mode'] == 'roll':
             ctx.count('depth_%d' % s['depth'])
     try:
-        cs = SCCReader().read(doc)
+        cs = G.reader_for(case, ctx).read(doc)
     except Exception as e:
         return [{'what': 'SCCReader raised on a well-formed roll-up / paint-on stream', 'error': repr(e)[:400],
                  'doc': doc}]
